@@ -30,7 +30,7 @@ pub fn empty_hash() -> H32 {
 pub fn split_point(n: usize) -> usize {
     assert!(n >= 2);
     let mut k = 1;
-    while k * 2 < n {
+    while k <= (n - 1) / 2 {
         k *= 2;
     }
     k
